@@ -299,6 +299,8 @@ def r4_chunking(ctx):
                compl and same_elt, detail={"predicates": [p1, p2]})
     else:
         ctx.ob("C01.R4", PROC, "ChunkTasks._chunks", fn, "exactly two partitioning comprehensions", False, stmt="partition")
+    from ..util import name_bound
+    CH = name_bound(fn, lambda v: isinstance(v, ast.Call) and call_name(v) in ("defaultdict", "collections.defaultdict"), "chunks")
     names = [n for n, _, _ in comps]
     for nm in names:
         loops = [s for s in fn.body if isinstance(s, ast.For) and unparse(s.iter) == nm]
@@ -309,15 +311,15 @@ def r4_chunking(ctx):
                 if isinstance(x, ast.Yield) and x.value is not None and unparse(x.value) == f"[{tgt}]" and not guards_of(x, lp):
                     ok = True
                 if isinstance(x, ast.Call) and call_tail(x) == "append" and x.args and unparse(x.args[0]) == tgt \
-                        and isinstance(x.func.value, ast.Subscript) and unparse(x.func.value.value) == "chunks" and not guards_of(x, lp):
+                        and isinstance(x.func.value, ast.Subscript) and unparse(x.func.value.value) == CH and not guards_of(x, lp):
                     ok = True
         ctx.ob("C01.R4", PROC, "ChunkTasks._chunks", loops[0] if loops else fn, f"every task in {nm} is yielded or put in exactly one bucket", ok and len(loops) == 1,
                stmt=f"consume {nm}")
     # buckets: 'not_chunked' popped & yielded singly; remaining buckets all yielded via _max_chunker
-    pops = [s for s in fn.body if isinstance(s, ast.For) and "chunks.pop('not_chunked'" in unparse(s.iter)]
+    pops = [s for s in fn.body if isinstance(s, ast.For) and f"{CH}.pop('not_chunked'" in unparse(s.iter)]
     ok = bool(pops) and any(isinstance(x, ast.Yield) and x.value is not None and unparse(x.value) == f"[{unparse(pops[0].target)}]" for x in walk_shallow(pops[0]))
     ctx.ob("C01.R4", PROC, "ChunkTasks._chunks", pops[0] if pops else fn, "un-chunked tasks are each yielded", ok, stmt="not_chunked bucket")
-    vals = [s for s in fn.body if isinstance(s, ast.For) and "chunks.values()" in unparse(s.iter)]
+    vals = [s for s in fn.body if isinstance(s, ast.For) and f"{CH}.values()" in unparse(s.iter)]
     ok = False
     for lp in vals:
         tgt = unparse(lp.target)
@@ -333,12 +335,13 @@ def r4_chunking(ctx):
     ctx.ob("C01.R4", PROC, "ChunkTasks._chunks", fn, "'not_chunked' is removed before the remaining buckets are iterated", bool(order_ok), stmt="pop-before-values", trivial=True)
     mc = ctx.fn(PROC, "ChunkTasks._max_chunker")
     its = [s for s in mc.body if isinstance(s, ast.Assign) and unparse(s.value) == "iter(chunk)"]
-    bs = [x for x in walk_shallow(mc) if isinstance(x, ast.Assign) and unparse(x.targets[0]) == "batch"]
+    BT = name_bound(mc, lambda v: unparse(v) == "list(islice(chunk, max_tasks))", "batch")
+    bs = [x for x in walk_shallow(mc) if isinstance(x, ast.Assign) and unparse(x.targets[0]) == BT]
     ok_b = len(bs) >= 2 and all(unparse(b.value) == "list(islice(chunk, max_tasks))" for b in bs)
     wl = [s for s in mc.body if isinstance(s, ast.While)]
-    ok_w = len(wl) == 1 and unparse(wl[0].test) in ("batch != []", "batch") and any(
-        isinstance(x, ast.Yield) and x.value is not None and unparse(x.value) == "batch" for x in walk_shallow(wl[0])) \
-        and isinstance(wl[0].body[-1], ast.Assign) and unparse(wl[0].body[-1].targets[0]) == "batch"
+    ok_w = len(wl) == 1 and unparse(wl[0].test) in (f"{BT} != []", BT) and any(
+        isinstance(x, ast.Yield) and x.value is not None and unparse(x.value) == BT for x in walk_shallow(wl[0])) \
+        and isinstance(wl[0].body[-1], ast.Assign) and unparse(wl[0].body[-1].targets[0]) == BT
     ctx.ob("C01.R4", PROC, "ChunkTasks._max_chunker", mc, "one shared iterator is drained in islice batches until empty",
            bool(its) and ok_b and ok_w and not any(isinstance(x, (ast.Break, ast.Return)) for x in walk_shallow(mc)),
            detail={"iter": bool(its), "batches": ok_b, "loop": ok_w}, stmt="_max_chunker")
@@ -365,7 +368,10 @@ def r5_sorted_rebuild(ctx):
     ctx.rule("C01.R5", "TransactionResult.filter iterates the accumulated env/lrn/val/int row dictionaries only through "
                        "sorted(...) (or inside order-insensitive aggregates); interaction records are keyed by the id triple")
     fn = ctx.fn(RES, "TransactionResult.filter")
-    accs = {"env_rows", "lrn_rows", "val_rows", "int_rows"}
+    from ..util import bound_names
+    accs = set(bound_names(fn, lambda v: (isinstance(v, ast.Call) and call_name(v) in ("collections.defaultdict", "defaultdict")) or (isinstance(v, ast.Dict) and not v.keys)))
+    loops_t = [x for x in fn.body if isinstance(x, ast.For) and isinstance(x.iter, ast.Name) and x.iter.id == "transactions"]
+    TRX = unparse(loops_t[0].target) if loops_t else "trx"
     n = 0
     for x in walk_shallow(fn):
         iters = []
@@ -378,14 +384,17 @@ def r5_sorted_rebuild(ctx):
             if not (names & accs):
                 continue
             n += 1
-            ok = (isinstance(it, ast.Call) and call_name(it) == "sorted") or _order_free_context(it) or isinstance(x, ast.SetComp)
-            ctx.ob("C01.R5", RES, "TransactionResult.filter", it, "accumulated rows are traversed in sorted id order", ok)
+            is_sorted = isinstance(it, ast.Call) and call_name(it) == "sorted"
+            natural = is_sorted and not it.keywords and len(it.args) == 1 and isinstance(it.args[0], ast.Call) and call_tail(it.args[0]) in ("items", "keys")
+            ok = natural or _order_free_context(it) or isinstance(x, ast.SetComp)
+            ctx.ob("C01.R5", RES, "TransactionResult.filter", it, "accumulated rows are traversed in the natural order of their complete ids (sorted(acc.items()), no partial key)", ok,
+                   detail=None if ok else {"sorted": is_sorted, "note": "a key= that looks at part of the id leaves ties in arrival order"})
     ctx.floor("C01.R5", "iterations over accumulated rows", n, 4)
     st = [x for x in walk_shallow(fn) if isinstance(x, ast.Assign) and isinstance(x.targets[0], ast.Subscript)
-          and unparse(x.targets[0].value) == "int_rows"]
-    ok = bool(st) and all(unparse(s.targets[0].slice) == "tuple(trx[1])" for s in st)
+          and unparse(x.targets[0].value) in accs and unparse(x.value) == f"{TRX}[2]"]
+    ok = bool(st) and all(unparse(s.targets[0].slice) == f"tuple({TRX}[1])" for s in st)
     ctx.ob("C01.R5", RES, "TransactionResult.filter", st[0] if st else fn, "interaction records are stored under their id triple (duplicates fold)", ok,
-           stmt="int_rows[tuple(trx[1])] store")
+           stmt="interaction rows stored under tuple(ids)")
 
 
 # ------------------------------------------------------------------------------------------ R6
@@ -543,9 +552,11 @@ def _is_set_expr(e, fn, depth=0):
 
 def _encode_sorts_keys(ctx):
     fn = ctx.fn(RES, "TransactionEncode.filter")
-    vals = assigned_value(fn, "keys")
+    from ..util import name_bound
+    K = name_bound(fn, lambda v: isinstance(v, ast.Call) and call_name(v) == "sorted" and ".keys()" in unparse(v), "keys")
+    vals = assigned_value(fn, K)
     return bool(vals) and all(isinstance(v, ast.Call) and call_name(v) == "sorted" for v in vals) and any(
-        isinstance(x, ast.For) and unparse(x.iter) == "keys" for x in walk_shallow(fn))
+        isinstance(x, ast.For) and unparse(x.iter) == K for x in walk_shallow(fn))
 
 
 def r7_hash_order(ctx):
